@@ -94,7 +94,8 @@ def config_features(cfg: dict) -> dict:
             "slots": any(l["hw"] is None for d in deps for l in d["locs"])}
 
 
-def gen_config(rng, *, decimal=False, allow_shared=True, allow_slots=True, max_deps=3, allow_hetero=True) -> dict:
+def gen_config(rng, *, decimal=False, allow_shared=True, allow_slots=True, max_deps=3, allow_hetero=True,
+               probe_failures=True) -> dict:
     """1..3 deployments x 1..3 locations, hardware or slots, wrappers stacked on earlier deployments"""
     q = (lambda k: k / 4) if not decimal else (lambda k: k / 10)
     deps = []
@@ -176,6 +177,13 @@ def gen_config(rng, *, decimal=False, allow_shared=True, allow_slots=True, max_d
                         if rng.random() < 0.6:
                             tbl[p] = rng.choice([0, 256, 512, 1024, 3072]) * 1024
         sizes[d["name"]] = tbl
+    # in some configurations the disk-usage probe (`find … | awk` of remotepath._size) fails for one path of one
+    # deployment: get_storage_usages raises and _free_resources must still release the job (usage = Hardware())
+    if probe_failures and rng.random() < 0.3:
+        d = rng.choice(deps)
+        cands = sorted({p for l in d["locs"] if l["hw"] for st in l["hw"]["storage"] for p in st[3]})
+        if cands:
+            sizes[d["name"]][rng.choice(cands)] = -1
     targets = []
     for d in deps:
         n = len(d["locs"])
@@ -590,7 +598,10 @@ def config_lines(world: World) -> list[str]:
                     lines.append(f"tr {nm.id(bind)} {nm.id(mp)} {nm.id(p)} {nm.id(out)}")
     for dep, tbl in cfg["sizes"].items():
         for p, b in tbl.items():
-            lines.append(f"size {nm.id(dep)} {nm.id(p)} {rat(Fraction(b, 2 ** 20))}")
+            if b < 0:
+                lines.append(f"fail {nm.id(dep)} {nm.id(p)}")        # scripted failure of the disk-usage probe
+            else:
+                lines.append(f"size {nm.id(dep)} {nm.id(p)} {rat(Fraction(b, 2 ** 20))}")
     stack_ids = {}
     for d in cfg["deployments"]:
         for l in d["locs"]:
